@@ -1,4 +1,5 @@
 import ComposeVerif.Model.Include
+import ComposeVerif.Spec.Include
 import ComposeVerif.Lemmas.Include
 /-!
 # C06 — include is equivalent to pasting the included, fully resolved model
@@ -137,5 +138,114 @@ theorem importEntries_twice (frm to r : KVs) (hnd : (frm.map Prod.fst).Nodup) (h
     · rw [hac]
     · exact absurd ⟨n, a, c, hm, hl, hac⟩ hnc
   | none => exact lookup_of_mem_nodup frm hnd hm
+
+end CV.Include
+
+namespace CV.Include
+open CV CV.Val
+
+/-! ## the five sections: `importResources` -/
+
+theorem targetSection_congr {k : String} {t t' : KVs} (h : lookup k t' = lookup k t) :
+    targetSection k t' = targetSection k t := by
+  simp only [targetSection, h]
+
+theorem importResource_frame {src tgt tgt' : KVs} {k k' : String} (h : importResource src tgt k = .ok tgt')
+    (hk : k' ≠ k) : lookup k' tgt' = lookup k' tgt := by
+  simp only [importResource] at h
+  split at h
+  · cases h; rfl
+  · cases h; rfl
+  · split at h
+    · cases h
+    · split at h
+      · obtain ⟨to', _, h2⟩ := bind_eq_ok h
+        cases h2
+        exact lookup_insert_ne _ hk _
+      · cases h
+
+theorem importResource_conflict_iff {src tgt : KVs} {k : String}
+    (hs : lookup k src = none ∨ lookup k src = some .null ∨ ∃ f, lookup k src = some (.map f) ∧ (f.map Prod.fst).Nodup)
+    (ht : ∃ to, targetSection k tgt = some to) :
+    importResource src tgt k = .err "conflict" ↔ ConflictAt src tgt k := by
+  obtain ⟨to, ht⟩ := ht
+  rcases hs with hs | hs | ⟨f, hs, hnd⟩
+  · simp only [importResource, hs, ConflictAt]
+    constructor
+    · intro h; cases h
+    · rintro ⟨f, _, _, _, _, h, _⟩; cases h
+  · simp only [importResource, hs, ConflictAt]
+    constructor
+    · intro h; cases h
+    · rintro ⟨f, _, _, _, _, h, _⟩; cases h
+  · simp only [importResource, hs, ht, ConflictAt]
+    constructor
+    · intro h
+      have hc : importEntries f to = .err "conflict" := by
+        rcases importEntries_outcome f to with ⟨r, hr⟩ | hr
+        · rw [hr] at h; cases h
+        · exact hr
+      obtain ⟨n, a, c, hm, hl, hne⟩ := (importEntries_conflict_iff f to hnd).mp hc
+      exact ⟨f, to, n, a, c, rfl, rfl, hm, hl, hne⟩
+    · rintro ⟨f', to', n, a, c, hf, hto, hm, hl, hne⟩
+      cases hf; cases hto
+      rw [(importEntries_conflict_iff f to hnd).mpr ⟨n, a, c, hm, hl, hne⟩]
+      rfl
+
+theorem importResource_outcome {src tgt : KVs} {k : String}
+    (hs : lookup k src = none ∨ lookup k src = some .null ∨ ∃ f, lookup k src = some (.map f) ∧ (f.map Prod.fst).Nodup)
+    (ht : ∃ to, targetSection k tgt = some to) :
+    (∃ r, importResource src tgt k = .ok r) ∨ importResource src tgt k = .err "conflict" := by
+  obtain ⟨to, ht⟩ := ht
+  rcases hs with hs | hs | ⟨f, hs, _⟩
+  · exact .inl ⟨tgt, by simp only [importResource, hs]⟩
+  · exact .inl ⟨tgt, by simp only [importResource, hs]⟩
+  · simp only [importResource, hs, ht]
+    rcases importEntries_outcome f to with ⟨r, hr⟩ | hr
+    · rw [hr]; exact .inl ⟨_, rfl⟩
+    · rw [hr]; exact .inr rfl
+
+theorem conflictAt_congr {src t t' : KVs} {k : String} (h : lookup k t' = lookup k t) :
+    ConflictAt src t' k ↔ ConflictAt src t k := by
+  simp only [ConflictAt, targetSection_congr h]
+
+theorem importKinds_conflict_iff (src : KVs) (hs : WfSource src) :
+    ∀ (ks : List String) (tgt : KVs), ks.Nodup → (∀ k, k ∈ ks → k ∈ resourceKinds) →
+      (∀ k, k ∈ ks → ∃ to, targetSection k tgt = some to) →
+      (importKinds src ks tgt = .err "conflict" ↔ ∃ k, k ∈ ks ∧ ConflictAt src tgt k)
+  | [], tgt, _, _, _ => by simp [importKinds]
+  | k :: ks, tgt, hnd, hsub, ht => by
+    simp only [List.nodup_cons] at hnd
+    have hsk := hs k (hsub k List.mem_cons_self)
+    have htk := ht k List.mem_cons_self
+    simp only [importKinds]
+    rcases importResource_outcome hsk htk with ⟨r, hr⟩ | hr
+    · rw [hr, bind_ok]
+      have hframe : ∀ k', k' ∈ ks → lookup k' r = lookup k' tgt := by
+        intro k' hk'
+        exact importResource_frame hr (by intro e; subst e; exact hnd.1 hk')
+      have ht' : ∀ k', k' ∈ ks → ∃ to, targetSection k' r = some to := by
+        intro k' hk'
+        rw [targetSection_congr (hframe k' hk')]
+        exact ht k' (List.mem_cons_of_mem _ hk')
+      rw [importKinds_conflict_iff src hs ks r hnd.2 (fun k' hk' => hsub k' (List.mem_cons_of_mem _ hk')) ht']
+      have hnok : ¬ ConflictAt src tgt k := by
+        rw [← importResource_conflict_iff hsk htk, hr]; intro e; cases e
+      constructor
+      · rintro ⟨k', hk', hc⟩
+        exact ⟨k', List.mem_cons_of_mem _ hk', (conflictAt_congr (hframe k' hk')).mp hc⟩
+      · rintro ⟨k', hk', hc⟩
+        rcases List.mem_cons.mp hk' with h1 | h2
+        · subst h1; exact absurd hc hnok
+        · exact ⟨k', h2, (conflictAt_congr (hframe k' h2)).mpr hc⟩
+    · rw [hr, bind_err]
+      simp only [true_iff]
+      exact ⟨k, List.mem_cons_self, (importResource_conflict_iff hsk htk).mp hr⟩
+
+/-- **import_conflict_iff**: importing a validated model into a document is a conflict error exactly when one of
+the five sections defines some name on both sides with non-equal values -/
+theorem import_conflict_iff (src tgt : KVs) (hs : WfSource src) (ht : WfTarget tgt) :
+    importResources src tgt = .err "conflict" ↔ ∃ k, k ∈ resourceKinds ∧ ConflictAt src tgt k :=
+  importKinds_conflict_iff src hs resourceKinds tgt (by decide) (fun _ h => h) ht
 
 end CV.Include
